@@ -6,8 +6,9 @@
    the failed attempt had consumed). *)
 From Verif Require Import Engine EngineTables.
 From Verif Require Import Base EngineSafetyBase EngineSafetyBits EngineSafetyInv.
-From Verif Require Import EngineSafetySmall EngineSafetyRL EngineSafetyExpand EngineSafetyDecode
+From Verif Require Import EngineSafetyBuf EngineSafetySmall EngineSafetyRL EngineSafetyExpand EngineSafetyDecode
   EngineSafetyLitLen.
+From Verif Require Import EngineSafetySuffix.
 From Coq Require Import List NArith ZArith Bool Lia ZifyBool ZifyNat ZifyN.
 Import ListNotations.
 Open Scope N_scope.
@@ -465,7 +466,7 @@ Definition restart_ok (s' : inflate) (X : list N) : Prop :=
    (avail (rd (fst (tryDecodeHeader s'))) <= 8 * Z.of_nat (length X))%Z).
 
 Definition staged_ok (s : inflate) : Prop :=
-  forall s' X, dyn s' = dyn s -> tb s' = tb s ->
+  forall s' X, bytes_ok X -> dyn s' = dyn s -> tb s' = tb s ->
     rd s' = mkBR (r_bits (rd s)) (r_len (rd s)) (headerBuffer s ++ X)
                  (headerBuffered s + N.of_nat (length X)) ->
     restart_ok s' X.
@@ -473,13 +474,19 @@ Definition staged_ok (s : inflate) : Prop :=
 (* Hypothesis 2: if a header attempt runs out of input, then any attempt that restarts with the same
    bit buffer on a prefix of that input followed by more bytes X (and with the tables the failed
    attempt left behind) loads the whole prefix, and if it succeeds it has consumed every bit of the
-   prefix: the unread bits all belong to X. *)
+   prefix: the unread bits all belong to X.  (All input values are bytes: with values >= 256 the
+   64-bit load and the byte-wise load of the bit buffer differ and the statement is false, see
+   EngineSafetyRestartCex.v.) *)
 Definition HeaderRestartMonotone : Prop :=
-  forall s s2, hdr_pre s -> tryDecodeHeader s = (s2, EEndInput) ->
-  forall n X s', dyn s' = dyn s2 -> tb s' = tb s2 ->
+  forall s s2, hdr_pre s -> bytes_ok (r_in (rd s)) -> tryDecodeHeader s = (s2, EEndInput) ->
+  forall n X s', bytes_ok X -> dyn s' = dyn s2 -> tb s' = tb s2 ->
     rd s' = mkBR (r_bits (rd s)) (r_len (rd s)) (firstn n (r_in (rd s)) ++ X)
                  (N.of_nat (length (firstn n (r_in (rd s)))) + N.of_nat (length X)) ->
     restart_ok s' X.
+
+(* the input in hand and the staged header bytes are bytes *)
+Definition in_bytes (s : inflate) : Prop :=
+  bytes_ok (r_in (rd s)) /\ bytes_ok (headerBuffer s).
 
 Definition inf_inv (s : inflate) : Prop :=
   br_inv (rd s) /\ (0 <= r_len (rd s))%Z /\ clc_ok (dyn s) /\ tabs_ok2 (tb s) /\
@@ -495,16 +502,16 @@ Definition hmeasure (s : inflate) : Z := (avail (rd s) + 8 * Z.of_N (headerBuffe
 
 Theorem readHeader_spec : forall s s' e,
   LongCodesFit -> HeaderRestartMonotone ->
-  readHeader s = (s', e) -> inf_inv s ->
+  readHeader s = (s', e) -> inf_inv s -> in_bytes s ->
   (e = ENone \/ e = EEndInput \/ e = EInvalidBlock) /\
-  (e <> EInvalidBlock -> inf_inv s' /\ (owed s' <= owed s)%Z) /\
+  (e <> EInvalidBlock -> inf_inv s' /\ (owed s' <= owed s)%Z /\ in_bytes s') /\
   (e = ENone -> (phase s' = phaseLitBlock \/ phase s' = phaseHeaderDecoded) /\
                 (hmeasure s' + 3 <= hmeasure s)%Z) /\
   (e = EEndInput -> r_inlen (rd s') = 0 /\ phase s' = phaseDecodingHeader) /\
   r_inlen (rd s') <= r_inlen (rd s) /\ (-80 <= r_len (rd s'))%Z /\ (r_len (rd s') <= 64)%Z /\
   inputNil s' = inputNil s /\ ov s' = ov s /\ roffset s' = roffset s.
 Proof.
-  intros s s' e HLF HRM H (Ibr & Ilen & Iclc & Itb & Ihb & Ihb2 & Istg & Inst & Ilit).
+  intros s s' e HLF HRM H (Ibr & Ilen & Iclc & Itb & Ihb & Ihb2 & Istg & Inst & Ilit) (Yin & Yhb).
   unfold readHeader in H.
   set (b0 := rd s) in *.
   set (staged := phase s =? phaseDecodingHeader) in *.
@@ -518,6 +525,9 @@ Proof.
   assert (Hcs2 : copySize + hb <= 328) by (unfold copySize, maxHdrSize; lia).
   assert (Hfl : length (firstn (N.to_nat copySize) (r_in b0)) = N.to_nat copySize).
   { rewrite firstn_length. lia. }
+  assert (HX : bytes_ok (firstn (N.to_nat copySize) (r_in b0))) by (apply bytes_ok_firstn; exact Yin).
+  assert (Hs1bytes : bytes_ok (r_in (rd s1))).
+  { unfold s1. destruct staged; [sproj; unfold br_set_in; cbn [r_in]; apply bytes_ok_app; assumption|exact Yin]. }
   assert (Hpre1 : hdr_pre s1).
   { unfold hdr_pre, s1. destruct staged.
     - sproj. split; [|split; [exact Ilen|split; [exact Iclc|exact Itb]]].
@@ -537,7 +547,7 @@ Proof.
   assert (Hleft : staged = true -> r_inlen (rd s2) <= copySize /\
                                    (err = ENone -> 0 <= r_len (rd s2) -> r_len (rd s2) <= 8 * (Z.of_N copySize - Z.of_N (r_inlen (rd s2))))%Z).
   { intros Hst. assert (Hph : phase s = phaseDecodingHeader) by (unfold staged in Hst; lia).
-    pose proof (Istg Hph s1 (firstn (N.to_nat copySize) (r_in b0))) as Hso.
+    pose proof (Istg Hph s1 (firstn (N.to_nat copySize) (r_in b0)) HX) as Hso.
     unfold restart_ok in Hso. rewrite ETD in Hso. cbn [fst snd] in Hso. rewrite Hfl in Hso.
     assert (Hrd1 : rd s1 = mkBR (r_bits (rd s)) (r_len (rd s)) (headerBuffer s ++ firstn (N.to_nat copySize) (r_in b0))
                                 (headerBuffered s + N.of_nat (N.to_nat copySize))).
@@ -557,7 +567,8 @@ Proof.
     assert (Hs3 : br_inv (rd s3) /\ r_len (rd s3) = r_len (rd s2) /\ phase s3 = phase s2 /\ dyn s3 = dyn s2 /\
                   tb s3 = tb s2 /\ inputNil s3 = inputNil s2 /\ ov s3 = ov s2 /\ roffset s3 = roffset s2 /\
                   (Z.of_N (r_inlen (rd s3)) + r_len (rd s2) / 8 <= owed s)%Z /\
-                  (avail (rd s3) + 3 <= hmeasure s)%Z /\ r_inlen (rd s3) <= r_inlen b0).
+                  (avail (rd s3) + 3 <= hmeasure s)%Z /\ r_inlen (rd s3) <= r_inlen b0 /\
+                  bytes_ok (r_in (rd s3))).
     { unfold s3. destruct staged eqn:Est.
       - destruct (Hleft eq_refl) as (Hl1 & Hl2). specialize (Hl2 eq_refl Q1). sproj.
         assert (Hread : read = (Z.of_N copySize - Z.of_N (r_inlen (rd s2)))%Z) by (unfold read; lia).
@@ -571,20 +582,21 @@ Proof.
         + assert (r_len (rd s2) / 8 <= read)%Z by (apply Z.div_le_upper_bound; lia).
           assert (0 <= r_len b0 / 8)%Z by (apply Z.div_pos; lia). lia.
         + lia.
-        + lia.
+        + split; [lia|]. apply bytes_ok_skipn. exact Yin.
       - assert (Hs1 : s1 = s) by reflexivity.
         split; [exact (conj R1 (conj R2 R3))|]. repeat (split; [reflexivity|]).
         specialize (HPav eq_refl). rewrite Hs1 in HPav, P4, P5.
         assert (Hhb0 : hb = 0) by (apply Inst; unfold staged in Est; lia).
         unfold owed, hmeasure, avail in *. fold b0. fold hb. rewrite Hhb0.
-        fold b0 in HPav, P4, P5. split; [|split; [lia|lia]].
+        fold b0 in HPav, P4, P5. split; [|split; [lia|split; [lia|]]].
+        2:{ apply (in_suffix_Forall _ (r_in (rd s1))); [exact (tryDecodeHeader_suffix _ _ _ ETD)|exact Hs1bytes]. }
         assert (8 * Z.of_N (r_inlen (rd s2)) + 8 * (r_len (rd s2) / 8) <= 8 * Z.of_N (r_inlen b0) + 8 * (r_len b0 / 8))%Z; [|lia].
         pose proof (Z.mul_div_le (r_len (rd s2)) 8 ltac:(lia)).
         pose proof (Z.mod_pos_bound (r_len b0) 8 ltac:(lia)).
         pose proof (Z.div_mod (r_len b0) 8 ltac:(lia)).
         pose proof (Z.mod_pos_bound (r_len (rd s2)) 8 ltac:(lia)).
         pose proof (Z.div_mod (r_len (rd s2)) 8 ltac:(lia)). lia. }
-    destruct Hs3 as (T1 & T2 & T3 & T4 & T5 & T6 & T7 & T8 & T9 & T10 & T11).
+    destruct Hs3 as (T1 & T2 & T3 & T4 & T5 & T6 & T7 & T8 & T9 & T10 & T11 & T12).
     fold s3. sproj.
     assert (Hph2 : phase s2 = phaseLitBlock \/ phase s2 = phaseHeaderDecoded).
     { destruct (HPph eq_refl) as [[A _]|A]; [left|right]; exact A. }
@@ -597,7 +609,7 @@ Proof.
         intros Hc. rewrite T3 in Hc. rewrite T2.
         destruct (HPph eq_refl) as [[_ A]|A]; [exact A|].
         unfold phaseLitBlock, phaseHeaderDecoded in *; lia.
-      - unfold owed; sproj. rewrite T2. exact T9. }
+      - split; [unfold owed; sproj; rewrite T2; exact T9|]. unfold in_bytes; sproj. split; [exact T12|constructor]. }
     split.
     { intros _. split; [rewrite T3; exact Hph2|]. unfold hmeasure at 1; sproj. lia. }
     split; [intros Hc; discriminate|].
@@ -618,21 +630,21 @@ Proof.
         split; [rewrite Hd; exact P6|]. split; [rewrite Ht, Q2, S1d; exact Itb|].
         split; [rewrite app_length, Hfl; lia|]. split; [lia|].
         split; [|split; [intros Hc; contradiction|intros Hc; unfold phaseDecodingHeader, phaseLitBlock in Hc; discriminate]].
-        intros _. unfold staged_ok; sproj. intros s'' X Hd'' Ht'' Hr''.
+        intros _. unfold staged_ok; sproj. intros s'' X HbX Hd'' Ht'' Hr''.
         rewrite Hd in Hd''. rewrite Ht in Ht''.
         destruct staged eqn:Est.
         + (* the failed attempt ran on headerBuffer ++ firstn copySize in0 *)
-          apply (HRM s1 s2 Hpre1 ETD (length (r_in (rd s1))) X s'' Hd'' Ht'').
+          apply (HRM s1 s2 Hpre1 Hs1bytes ETD (length (r_in (rd s1))) X s'' HbX Hd'' Ht'').
           rewrite firstn_all. rewrite Hr''. unfold s1; sproj. unfold br_set_in; cbn [r_bits r_len r_in r_inlen]. f_equal.
           rewrite app_length, Hfl. lia.
         + assert (Hhb0 : hb = 0) by (apply Inst; unfold staged in Est; lia).
           assert (Hhbl : headerBuffer s = []).
           { destruct (headerBuffer s); [reflexivity|]. fold hb in Ihb. rewrite Hhb0 in Ihb. cbn [length] in Ihb. lia. }
-          apply (HRM s1 s2 Hpre1 ETD (N.to_nat copySize) X s'' Hd'' Ht'').
+          apply (HRM s1 s2 Hpre1 Hs1bytes ETD (N.to_nat copySize) X s'' HbX Hd'' Ht'').
           rewrite Hr''. unfold s1; sproj. rewrite Hhbl. cbn [app]. fold b0. f_equal.
           rewrite Hfl. lia.
-      - unfold owed; sproj. fold b0.
-        assert (0 <= Z.of_N (r_inlen b0))%Z by lia. lia. }
+      - split; [unfold owed; sproj; fold b0; assert (0 <= Z.of_N (r_inlen b0))%Z by lia; lia|].
+        unfold in_bytes; sproj. split; [constructor|]. apply bytes_ok_app; assumption. }
     split; [intros Hc; discriminate|].
     split; [intros _; split; reflexivity|].
     split; [lia|]. split; [lia|]. split; [exact B2|].
